@@ -73,6 +73,18 @@ var pairSmall = []string{
 	"fn(x: int) -> int { x }", "{ }", "if true { 1 }", "nosuch", "O", "spawn f0()", "time", "$S", `"s" as any`, "throw(1)",
 }
 
+// Values of every kind in every wrapping (option, list, object field, nested) for the equality table: `==` / `!=`
+// is allowed on every type, `contains` takes the list's element type, `match` compares with literals. Equality
+// recurses through the wrappers; each must hand equal-typed payloads of EVERY kind to the payload's own comparison.
+var pairEq = []string{
+	"1", "2", "1.5", "true", `"s"`, `"t"`, "null", "none", "?1", "?2", "??1", "?none", `?"s"`, "?1.5", "?true", "0..2", "?(0..2)", "1..=2",
+	"[]", "[1]", "[1, 2]", "[[1]]", "[?1]", "[none]", `["s"]`, "?[1]", "?[[1]]", "[0..2]",
+	"new { a: 1 }", "new { a: 2 }", "?new { a: 1 }", "?new { a: 2 }", "??new { a: 1 }", "[new { a: 1 }]", "[?new { a: 1 }]", "new { o: ?new { a: 1 } }", "new { o: ?1 }", "new { l: [1] }",
+	"new { ? }", "?new { ? }", "[new { ? }]", "new { q: new { ? } }",
+	"println", "?println", "[println]", "f0", "f1", "?f1", "[f1]", "fn(x: int) -> int { x }", "?fn(x: int) -> int { x }", `"s".len`, `?"s".len`, "[1].push", "?[1].push",
+	`"s" as any`, "?new { a: 1, b: ?new { c: [?1] } }",
+}
+
 func pairProgram(body string) string {
 	return "$S = { n: int };\n" + pairPrelude + body
 }
@@ -118,6 +130,16 @@ func Programs() []Program {
 			add("pairs:range", fmt.Sprintf("fn main() { for i in %s..%s {} }\n", a, b))
 			add("pairs:match", fmt.Sprintf("fn main() { let v = match %s { 1 => %s, \"s\" => 1, true => 2, none => 3, _ => %s }; }\n", a, b, a))
 		}
+	}
+	for i, a := range pairEq {
+		for j, b := range pairEq {
+			add("pairs:equality", fmt.Sprintf("fn main() { println(%s == %s, %s != %s); }\n", a, b, a, b))
+			if i <= j {
+				add("pairs:equality-variables", fmt.Sprintf("fn main() { let x = %s; let y = %s; println(x == y, y != x, x == x); }\n", a, b))
+				add("pairs:equality-contains", fmt.Sprintf("fn main() { let l = [%s]; println(l.contains(%s), l == [%s]); }\n", a, b, b))
+			}
+		}
+		add("pairs:equality-match", fmt.Sprintf("fn main() { let x = %s; println(match x { %s => 1, _ => 2 }); }\n", a, a))
 	}
 	for _, e := range pairExprs {
 		for _, m := range memberNames {
